@@ -157,10 +157,26 @@ func c09Parse(resp bool, br *bufio.Reader) c09Verdict {
 	return c09Verdict{accept: true, fields: sb.String()}
 }
 
-// c09ReadOpen parses H from a connection that delivered exactly H and then stays silent; waited = the parser issued a
-// Read although it already had the whole head.
-func c09ReadOpen(resp bool, head []byte) (v c09Verdict, waited bool) {
-	conn := vnet.NewConn(head)
+// c09Deliveries: the ways the head reaches an open connection. The last chunk is what matters: the parser must decide
+// as soon as the final byte of the head is there, however few bytes the last Read delivered.
+func c09Deliveries(head []byte) (names []string, chunks [][][]byte) {
+	n := len(head)
+	add := func(name string, c [][]byte) {
+		names = append(names, name)
+		chunks = append(chunks, c)
+	}
+	add("whole", [][]byte{head})
+	add("split@len-1", vnet.Split(head, n-1))
+	add("split@len-2", vnet.Split(head, n-2))
+	add("split@len/2", vnet.Split(head, n/2))
+	add("dribble", vnet.Dribble(head, 1))
+	return names, chunks
+}
+
+// c09ReadOpen parses H from a connection that delivered exactly H (in the given chunks) and then stays silent;
+// waited = the parser issued a Read although it already had the whole head.
+func c09ReadOpen(resp bool, chunks [][]byte) (v c09Verdict, waited bool) {
+	conn := vnet.NewConn(chunks...)
 	conn.AtEnd = vnet.ErrBlock
 	br := bufio.NewReaderSize(conn, 4096)
 	v = c09Parse(resp, br)
@@ -195,8 +211,8 @@ func (c09NopLogger) Printf(string, ...any) {}
 
 // c09Serve runs the real server on an open connection that delivered in and then stays silent. verdict: what happened
 // to the first message; waited: a Read was issued on the silent connection before any byte of a response was written.
-func c09Serve(in []byte) (verdict string, waited bool) {
-	conn := &c09SrvConn{Conn: vnet.NewConn(in)}
+func c09Serve(in ...[]byte) (verdict string, waited bool) {
+	conn := &c09SrvConn{Conn: vnet.NewConn(in...)}
 	conn.AtEnd = vnet.ErrBlock
 	c09Srv.ServeConn(conn)
 	for _, e := range conn.Events {
@@ -268,13 +284,18 @@ func c09CheckHead(r *vrt.R, h *c09Head, st *c09Stats) {
 		r.Violation(h.shape()+":"+kind, fmt.Sprintf("Header.Read(%s + nothing) -> %s%s, but followed by %s -> %s%s", vrt.Q(H), base.key(), c09Err(base), c09ContNames[i+1], v.key(), c09Err(v)), art)
 		break
 	}
-	// (2) open connection: a parser that holds the complete head must decide without another Read
-	ov, waited := c09ReadOpen(h.resp, H)
-	evals++
-	if waited {
-		r.Violation(h.shape()+":waits-for-more-input", fmt.Sprintf("Header.Read on an open connection that delivered the complete head %s issued another Read instead of deciding (then: %s%s)", vrt.Q(H), ov.key(), c09Err(ov)), art)
-	} else if ov.key() != base.key() && !(ov.accept == base.accept && ov.fields == base.fields) {
-		r.Violation(h.shape()+":open-vs-closed-verdict-differs", fmt.Sprintf("Header.Read(%s): on a closed stream %s, on an open connection %s", vrt.Q(H), base.key(), ov.key()), art)
+	// (2) open connection, every delivery: a parser that holds the complete head must decide without another Read
+	dnames, dchunks := c09Deliveries(H)
+	for d, chunks := range dchunks {
+		ov, waited := c09ReadOpen(h.resp, chunks)
+		evals++
+		if waited {
+			r.Violation(h.shape()+":waits-for-more-input", fmt.Sprintf("Header.Read on an open connection that delivered the complete head %s (%s) issued another Read instead of deciding (then: %s%s)", vrt.Q(H), dnames[d], ov.key(), c09Err(ov)), art)
+			break
+		} else if ov.key() != base.key() && !(ov.accept == base.accept && ov.fields == base.fields) {
+			r.Violation(h.shape()+":open-vs-closed-verdict-differs", fmt.Sprintf("Header.Read(%s): on a closed stream %s, on an open connection (%s) %s", vrt.Q(H), base.key(), dnames[d], ov.key()), art)
+			break
+		}
 	}
 	// (3) the server on an open connection (request heads that announce no body)
 	if !h.resp && h.bodyless {
@@ -286,6 +307,19 @@ func c09CheckHead(r *vrt.R, h *c09Head, st *c09Stats) {
 		}
 		if swaited {
 			r.Violation(h.shape()+":waits-for-more-input", fmt.Sprintf("Server.ServeConn on an open connection that delivered the complete head %s issued another Read before answering", vrt.Q(H)), art)
+		}
+		for d, chunks := range dchunks[1:] {
+			sv, w := c09Serve(chunks...)
+			st.srvRuns++
+			evals++
+			if w && !swaited {
+				r.Violation(h.shape()+":waits-for-more-input", fmt.Sprintf("Server.ServeConn on an open connection that delivered the complete head %s (%s) issued another Read before answering", vrt.Q(H), dnames[d+1]), art)
+				break
+			}
+			if sv != sbase {
+				r.Violation(h.shape()+":verdict-depends-on-delivery", fmt.Sprintf("Server.ServeConn(%s) delivered whole -> %s, delivered %s -> %s", vrt.Q(H), sbase, dnames[d+1], sv), art)
+				break
+			}
 		}
 		for i, s := range conts[1:] {
 			sv, _ := c09Serve(append(append([]byte{}, H...), s...))
@@ -399,8 +433,8 @@ func TestVerif_C09(t *testing.T) {
 	maxFields := vrt.Pick(r, 2, 3)
 	r.Rule(fmt.Sprintf("request heads: %d start lines x optional leading empty line x every sequence of <=%d field lines out of %d; response heads: %d status lines x same over %d field lines; "+
 		"each with every CRLF / bare-LF assignment to every line including the blank line. Each head H is (1) parsed by RequestHeader.Read / ResponseHeader.Read from a bounded reader holding H+S for the "+
-		"%d continuations S in {%s}: accept/reject, the parsed fields and the consumed length must be identical for all S; (2) parsed from an open connection (vnet.ErrBlock) that delivered exactly H: "+
-		"no further Read may be issued and the verdict must equal the bounded one; (3) request heads announcing no body are served by Server.ServeConn on such an open connection with every S: the "+
+		"%d continuations S in {%s}: accept/reject, the parsed fields and the consumed length must be identical for all S; (2) parsed from an open connection (vnet.ErrBlock) that delivered exactly H, delivered {whole, split at len-1, len-2, len/2, 1-byte dribble}: "+
+		"no further Read may be issued and the verdict must equal the bounded one; (3) request heads announcing no body are served by Server.ServeConn on such an open connection with every S (and H alone in each of the 5 deliveries): the "+
 		"server must answer before reading on, and what happens to the first message must not depend on S. Every H is complete under fasthttp's own line rule (re-implemented in c09Complete, asserted). "+
 		"Non-trivial: heads with at least one bare-LF line ending.",
 		len(c09ReqLines), maxFields, len(c09ReqFields), len(c09RespLines), len(c09RespFields), len(c09Continuations(false)), strings.Join(c09ContNames, ", ")))
